@@ -1695,6 +1695,191 @@ fn scan_labels(out: &mut Out) {
     out.text = new_text;
 }
 
+
+// ------------------------------------------------------------------------------------------------
+// crate-wide syntactic facts for the frame conditions (DESIGN.md: c06.unsafe_frame, c08.slots_never_reassigned,
+// c12.no_poll_outside_loop, c14.wrappers_do_not_wake, c17.merge_default, c18 call sets)
+
+struct FactScan<'a> {
+    src: &'a Src,
+    cur_fn: Vec<String>,
+    unsafe_sites: Vec<serde_json::Value>,
+    wake_sites: Vec<serde_json::Value>,
+    poll_sites: Vec<serde_json::Value>,
+    slots_writes: Vec<serde_json::Value>,
+    calls: BTreeMap<String, BTreeSet<String>>,
+    macros: BTreeMap<String, BTreeSet<String>>,
+    in_test: bool,
+}
+
+impl<'a> FactScan<'a> {
+    fn here(&self, sp: Span) -> (String, usize) {
+        (self.src.rel.clone(), sp.start().line)
+    }
+    fn fname(&self) -> String {
+        self.cur_fn.last().cloned().unwrap_or_else(|| "<item>".into())
+    }
+    fn site(&mut self, kind: &str, sp: Span) {
+        let (f, l) = self.here(sp);
+        let v = json!({"file": f, "line": l, "fn": self.fname(), "kind": kind});
+        self.unsafe_sites.push(v);
+    }
+    fn call(&mut self, name: &str) {
+        let f = self.fname();
+        self.calls.entry(f).or_default().insert(name.to_string());
+    }
+}
+
+fn is_cfg_test(attrs: &[syn::Attribute]) -> bool {
+    attrs.iter().any(|a| a.path().is_ident("cfg") && a.meta.require_list().map(|l| l.tokens.to_string().contains("test")).unwrap_or(false))
+}
+
+impl<'a, 'ast> Visit<'ast> for FactScan<'a> {
+    fn visit_item_mod(&mut self, m: &'ast syn::ItemMod) {
+        if is_cfg_test(&m.attrs) {
+            return;
+        }
+        visit::visit_item_mod(self, m);
+    }
+    fn visit_item_fn(&mut self, f: &'ast syn::ItemFn) {
+        if is_cfg_test(&f.attrs) { return; }
+        let outer = self.fname();
+        let name = if self.cur_fn.is_empty() { format!("::{}", f.sig.ident) } else { format!("{outer}/{}", f.sig.ident) };
+        self.cur_fn.push(name);
+        if f.sig.unsafety.is_some() { self.site("unsafe fn", f.sig.ident.span()); }
+        visit::visit_item_fn(self, f);
+        self.cur_fn.pop();
+    }
+    fn visit_item_impl(&mut self, imp: &'ast syn::ItemImpl) {
+        let ty = impl_self_name(imp).unwrap_or_else(|| "?".into());
+        let tr = imp.trait_.as_ref().and_then(|(_, p, _)| p.segments.last().map(|s| s.ident.to_string()));
+        if imp.unsafety.is_some() {
+            let (f, l) = self.here(imp.impl_token.span());
+            self.unsafe_sites.push(json!({"file": f, "line": l, "fn": format!("impl {} for {ty}", tr.clone().unwrap_or_default()), "kind": "unsafe impl"}));
+        }
+        for ii in &imp.items {
+            if let syn::ImplItem::Fn(f) = ii {
+                let name = match &tr { Some(t) => format!("{t} for {ty}::{}", f.sig.ident), None => format!("{ty}::{}", f.sig.ident) };
+                self.cur_fn.push(name);
+                if f.sig.unsafety.is_some() { self.site("unsafe fn", f.sig.ident.span()); }
+                self.visit_block(&f.block);
+                self.cur_fn.pop();
+            }
+        }
+    }
+    fn visit_expr_unsafe(&mut self, u: &'ast syn::ExprUnsafe) {
+        self.site("unsafe block", u.unsafe_token.span());
+        visit::visit_expr_unsafe(self, u);
+    }
+    fn visit_macro(&mut self, m: &'ast syn::Macro) {
+        let name = m.path.segments.last().map(|s| s.ident.to_string()).unwrap_or_default();
+        let f = self.fname();
+        self.macros.entry(f).or_default().insert(name.clone());
+        // look inside expression macros we know
+        if matches!(name.as_str(), "ready" | "debug_assert" | "debug_assert_eq" | "assert" | "assert_eq") {
+            let parser = syn::punctuated::Punctuated::<syn::Expr, syn::Token![,]>::parse_terminated;
+            if let Ok(args) = syn::parse::Parser::parse2(parser, m.tokens.clone()) {
+                for a in args.iter() { self.visit_expr(a); }
+            }
+        }
+    }
+    fn visit_expr_call(&mut self, c: &'ast syn::ExprCall) {
+        if let syn::Expr::Path(p) = &*c.func {
+            let segs: Vec<String> = p.path.segments.iter().map(|s| s.ident.to_string()).collect();
+            let full = segs.join("::");
+            self.call(&full);
+            let last2 = if segs.len() >= 2 { format!("{}::{}", segs[segs.len() - 2], segs[segs.len() - 1]) } else { full.clone() };
+            for k in ["Box::into_raw", "Box::from_raw", "Waker::from_raw", "mem::forget", "ptr::read", "ptr::write", "drop_in_place", "ManuallyDrop::new", "ManuallyDrop::drop", "ManuallyDrop::take", "MaybeUninit::uninit", "mem::transmute", "mem::zeroed"] {
+                if last2 == k || full.ends_with(k) || (segs.len() == 1 && k.ends_with(&format!("::{}", segs[0])) && matches!(segs[0].as_str(), "drop_in_place" | "forget" | "transmute")) {
+                    self.site(k, c.func.span());
+                }
+            }
+            if matches!(last2.as_str(), "mem::swap" | "mem::replace" | "mem::take") || matches!(full.as_str(), "swap" | "replace" | "take") {
+                let args = self.src.slice(self.src.range(c.args.span())).to_string();
+                if args.contains("slots") {
+                    let (f, l) = self.here(c.func.span());
+                    self.slots_writes.push(json!({"file": f, "line": l, "fn": self.fname(), "what": format!("{last2}({args})")}));
+                }
+            }
+            if segs.last().map(|s| s == "poll_fn").unwrap_or(false) && segs.len() == 1 {
+                let (f, l) = self.here(c.func.span());
+                self.poll_sites.push(json!({"file": f, "line": l, "fn": self.fname(), "callee": "poll_fn"}));
+            }
+        }
+        visit::visit_expr_call(self, c);
+    }
+    fn visit_expr_method_call(&mut self, mc: &'ast syn::ExprMethodCall) {
+        let m = mc.method.to_string();
+        self.call(&format!(".{m}"));
+        match m.as_str() {
+            "assume_init" | "assume_init_drop" | "assume_init_read" | "assume_init_mut" | "assume_init_ref" | "write" if m != "write" || self.src.slice(self.src.range(mc.receiver.span())).contains("output") => {
+                self.site(&format!("MaybeUninit::{m}"), mc.method.span());
+            }
+            "wake_by_ref" | "wake" => {
+                let recv = self.src.slice(self.src.range(mc.receiver.span())).to_string();
+                let (f, l) = self.here(mc.method.span());
+                self.wake_sites.push(json!({"file": f, "line": l, "fn": self.fname(), "receiver": recv}));
+            }
+            "poll" | "poll_next" | "try_poll" | "try_poll_next" | "poll_inner" | "poll_inner_no_remove" => {
+                let recv: String = self.src.slice(self.src.range(mc.receiver.span())).split_whitespace().collect();
+                let (f, l) = self.here(mc.method.span());
+                self.poll_sites.push(json!({"file": f, "line": l, "fn": self.fname(), "callee": m, "receiver": recv}));
+            }
+            _ => {}
+        }
+        visit::visit_expr_method_call(self, mc);
+    }
+    fn visit_expr_assign(&mut self, a: &'ast syn::ExprAssign) {
+        let lhs: String = self.src.slice(self.src.range(a.left.span())).split_whitespace().collect();
+        if lhs.ends_with(".slots") || lhs == "slots" {
+            let (f, l) = self.here(a.left.span());
+            self.slots_writes.push(json!({"file": f, "line": l, "fn": self.fname(), "what": format!("{lhs} = ..")}));
+        }
+        visit::visit_expr_assign(self, a);
+    }
+}
+
+fn emit_facts(srcs: &HashMap<String, Src>, all: &[String], path: &Path) -> Result<(), String> {
+    let mut unsafe_sites = vec![];
+    let mut wake_sites = vec![];
+    let mut poll_sites = vec![];
+    let mut slots_writes = vec![];
+    let mut calls: BTreeMap<String, BTreeSet<String>> = BTreeMap::new();
+    let mut macros: BTreeMap<String, BTreeSet<String>> = BTreeMap::new();
+    let mut impls: Vec<serde_json::Value> = vec![];
+    let mut structs: Vec<serde_json::Value> = vec![];
+    for rel in all {
+        let src = &srcs[rel];
+        let mut fs = FactScan { src, cur_fn: vec![], unsafe_sites: vec![], wake_sites: vec![], poll_sites: vec![], slots_writes: vec![], calls: BTreeMap::new(), macros: BTreeMap::new(), in_test: false };
+        fs.visit_file(&src.ast);
+        let _ = fs.in_test;
+        unsafe_sites.extend(fs.unsafe_sites);
+        wake_sites.extend(fs.wake_sites);
+        poll_sites.extend(fs.poll_sites);
+        slots_writes.extend(fs.slots_writes);
+        for (k, v) in fs.calls { calls.entry(format!("{rel}:{k}")).or_default().extend(v); }
+        for (k, v) in fs.macros { macros.entry(format!("{rel}:{k}")).or_default().extend(v); }
+        for it in &src.ast.items {
+            if let syn::Item::Impl(imp) = it {
+                let ty = impl_self_name(imp).unwrap_or_default();
+                let tr = imp.trait_.as_ref().and_then(|(_, p, _)| p.segments.last().map(|s| s.ident.to_string()));
+                let fns: Vec<String> = imp.items.iter().filter_map(|ii| if let syn::ImplItem::Fn(f) = ii { Some(f.sig.ident.to_string()) } else { None }).collect();
+                impls.push(json!({"file": rel, "type": ty, "trait": tr, "fns": fns, "line": imp.impl_token.span().start().line}));
+            }
+        }
+        for (st, _) in structs_in_file(&src.ast) {
+            let fields: Vec<serde_json::Value> = st.fields.iter().filter_map(|f| f.ident.as_ref().map(|i| {
+                let t: String = src.slice(src.range(f.ty.span())).split_whitespace().collect();
+                json!({"name": i.to_string(), "type": t})
+            })).collect();
+            structs.push(json!({"file": rel, "name": st.ident.to_string(), "fields": fields}));
+        }
+    }
+    let v = json!({"unsafe_sites": unsafe_sites, "wake_sites": wake_sites, "poll_sites": poll_sites, "slots_writes": slots_writes,
+        "calls": calls, "macros": macros, "impls": impls, "structs": structs});
+    std::fs::write(path, serde_json::to_string_pretty(&v).unwrap()).map_err(|e| format!("{}: {e}", path.display()))
+}
+
 fn main() {
     let args: Vec<String> = std::env::args().collect();
     let mut repo = PathBuf::from("/repo");
@@ -1704,6 +1889,7 @@ fn main() {
     let mut probes = false;
     let mut probe_prop: Option<String> = None;
     let mut probe_shard: Option<(usize, usize)> = None;
+    let mut facts_out: Option<PathBuf> = None;
     let mut i = 1;
     while i < args.len() {
         match args[i].as_str() {
@@ -1724,6 +1910,10 @@ fn main() {
                 i += 1;
             }
             "--probes" => probes = true,
+            "--facts" => {
+                facts_out = Some(PathBuf::from(&args[i + 1]));
+                i += 1;
+            }
             "--probe-shard" => {
                 let v: Vec<usize> = args[i + 1].split(':').filter_map(|x| x.parse().ok()).collect();
                 if v.len() == 2 && v[0] > 0 {
@@ -1741,6 +1931,33 @@ fn main() {
             }
         }
         i += 1;
+    }
+    if let Some(fo) = facts_out {
+        let mut all_src: Vec<String> = vec![];
+        fn walk2(dir: &Path, base: &Path, acc: &mut Vec<String>) {
+            if let Ok(rd) = std::fs::read_dir(dir) {
+                let mut es: Vec<_> = rd.flatten().collect();
+                es.sort_by_key(|e| e.path());
+                for e in es {
+                    let p = e.path();
+                    if p.is_dir() { walk2(&p, base, acc); } else if p.extension().map(|x| x == "rs").unwrap_or(false) {
+                        acc.push(p.strip_prefix(base).unwrap().to_string_lossy().to_string());
+                    }
+                }
+            }
+        }
+        walk2(&repo.join("src"), &repo, &mut all_src);
+        let mut srcs: HashMap<String, Src> = HashMap::new();
+        for rel in &all_src {
+            match Src::load(&repo, rel) {
+                Ok(s) => { srcs.insert(rel.clone(), s); }
+                Err(e) => { eprintln!("vx-extract: UNDECIDED: {e}"); std::process::exit(2); }
+            }
+        }
+        match emit_facts(&srcs, &all_src, &fo) {
+            Ok(()) => return,
+            Err(e) => { eprintln!("vx-extract: UNDECIDED: {e}"); std::process::exit(2); }
+        }
     }
     match run(&repo, &verif, &outp, &mapp, probes, probe_prop, probe_shard) {
         Ok(()) => {}
